@@ -4,7 +4,7 @@ use crate::common::*;
 
 pub fn run(ctx: &Ctx) -> Outcome {
     let mut out = Outcome::default();
-    let d = ctx.tier.pick(6, 8);
+    let d = ctx.tier.pick(6, 9);
     run_and_report(ctx, &tx_window(ctx.tier, true, 10, d), &mut out);
     run_and_report(ctx, &tx_window(ctx.tier, false, 10, d), &mut out);
     run_and_report(ctx, &tx_slowstart(ctx.tier, ctx.tier.pick(7, 9)), &mut out);
